@@ -106,6 +106,11 @@ func NewDispatcher(option DispatcherOption) *dispatcher {
 	if size < 1024 {
 		zoneSize = 8
 	}
+	// 如果size比zone的数量还少，则每个zone只缓存一个，
+	// 否则lruSize为0，而lru的0表示无限制，缓存数量则不受size限制
+	if size < zoneSize {
+		zoneSize = size
+	}
 
 	// 按zoneSize与size创建二维缓存，存放的是LRU缓存实例
 	lruSize := size / zoneSize
